@@ -67,6 +67,9 @@ func (t *PTy) Src(expand map[string]*PTy) string {
 		if t.Lo == nil && t.Hi == nil {
 			return "String"
 		}
+		if t.Hi == nil {
+			return "String[" + bound(t.Lo) + "]"
+		}
 		return "String[" + bound(t.Lo) + "," + bound(t.Hi) + "]"
 	case "Enum":
 		qs := make([]string, len(t.Vs))
@@ -85,6 +88,9 @@ func (t *PTy) Src(expand map[string]*PTy) string {
 	case "Array":
 		if t.Lo == nil && t.Hi == nil {
 			return "Array[" + t.Ts[0].Src(expand) + "]"
+		}
+		if t.Hi == nil {
+			return "Array[" + t.Ts[0].Src(expand) + "," + bound(t.Lo) + "]"
 		}
 		return "Array[" + t.Ts[0].Src(expand) + "," + bound(t.Lo) + "," + bound(t.Hi) + "]"
 	case "Ref":
